@@ -16,7 +16,9 @@ RULE = ("'small': tables of 1-60 rows with columns of every dtype, duplicates an
         "counts, percentage within 0.005, key comment <=> all distinct and none missing, "
         "ignore warning <=> >=1 missing; non-trivial = a column with a duplicate or a missing "
         "value; distinct = case digests")
-ASSUMPTIONS = ["one kind of missing marker per object column (None xor NaN)",
+ASSUMPTIONS = ["in an object column that mixes None and NaN the 'Unique values' count may count "
+               "the two markers once or twice (both readings of 'a missing value counting as one "
+               "value' accepted); the missing count stays exact",
                "comments matched on the words 'key' and 'ignore'"]
 
 STAT = re.compile(r"^(\d+) \((-?\d+(?:\.\d+)?(?:e-?\d+)?)%\)$")
@@ -30,7 +32,7 @@ def small_case(draw, tier):
                           min_size=1, max_size=5, unique=True))
     for nm in names:
         kind = draw(st.sampled_from(["int", "float", "obj", "bool", "datetime", "uniq-int",
-                                     "uniq-obj", "uniq-float-nan"]))
+                                     "uniq-obj", "uniq-float-nan", "obj-mixed"]))
         if kind == "uniq-int":
             c = {"name": nm, "kind": "int", "values": list(range(100, 100 + n))}
         elif kind == "uniq-obj":
@@ -43,6 +45,12 @@ def small_case(draw, tier):
             for _ in range(draw(st.integers(0, 2))):
                 vals[draw(st.integers(0, n - 1))] = float("nan")
             c = {"name": nm, "kind": "float", "values": vals}
+        elif kind == "obj-mixed":
+            # None and NaN side by side in one object column (e.g. after a concat / merge)
+            c = {"name": nm, "kind": "obj",
+                 "values": draw(st.lists(st.sampled_from(["a", "b", None, float("nan"), "c d",
+                                                          None, float("nan")]),
+                                         min_size=n, max_size=n))}
         elif kind == "int":
             c = {"name": nm, "kind": "int",
                  "values": draw(st.lists(st.integers(0, n), min_size=n, max_size=n))}
@@ -131,9 +139,13 @@ def check_profile(ctx, df, attrs, what):
     n = len(df)
     interesting = False
     for pos, a in enumerate(want):
-        vals = [canon.cv(v) for v in df[a].tolist()]
+        raw = df[a].tolist()
+        vals = [canon.cv(v) for v in raw]
         nmiss = sum(1 for v in vals if v == canon.NA)
         nuniq = len(set(vals))
+        # distinct kinds of missing marker (None / NaN / NA / NaT) in the column
+        markers = len(set("None" if v is None else type(v).__name__
+                          for v, c in zip(raw, vals) if c == canon.NA))
         if nmiss or nuniq < n:
             interesting = True
         for colname, cnt in (("Unique values", nuniq), ("Missing values", nmiss)):
@@ -143,6 +155,9 @@ def check_profile(ctx, df, attrs, what):
                 ctx.violation(site + ",kind=unparsable-statistic",
                               "%s: attribute %r %s = %r" % (what, a, colname, cell))
                 continue
+            if colname == "Unique values" and markers > 1 and \
+                    cnt <= int(mt.group(1)) <= cnt + markers - 1:
+                cnt = int(mt.group(1))      # either reading of the mixed markers
             if int(mt.group(1)) != cnt:
                 ctx.violation(site + ",kind=wrong-count",
                               "%s: attribute %r %s reports %s, exact count is %d (of %d rows)"
@@ -190,6 +205,9 @@ class Small(Component):
         ctx.label("attrs=" + ("None" if case["attrs"] is None else "list"))
         for c in case["table"]["columns"]:
             ctx.label("dtype=" + c["kind"])
+            ctx.label("mixed-missing-markers",
+                      c["kind"] == "obj" and any(v is None for v in c["values"]) and
+                      any(isinstance(v, float) for v in c["values"]))
 
 
 class Large(Component):
